@@ -3,7 +3,7 @@
 # after confirming in that worktree that the demonstration fails with the change and passes without it.
 set -u
 cd "$(dirname "$0")"
-id="$1"; name="$2"; needs="$3"; wt="/tmp/wt-$id"
+id="$1"; name="$2"; needs="$3"; wt="${4:-/tmp/wt-$id}"
 [ -f "$wt/_seed/patch.diff" ] || { echo "no patch"; exit 2; }
 export GOFLAGS=-mod=mod GOPROXY=off GOSUMDB=off GOTOOLCHAIN=local GOWORK=off
 cd "$wt"
